@@ -103,6 +103,22 @@ impl Group for SchedGroup {
                 }
             }
         }
+        // the transport stalls (a write that neither completes nor fails) at step s, the session dies at step c: whoever
+        // does not depend on the stalled write - readers, pending opens, later attempts - must still be released
+        for (s_at, c_at) in [(3usize, 4usize), (4, 6), (5, 6), (5, 8), (6, 7), (6, 10), (7, 9), (8, 9), (9, 12), (10, 11)] {
+            for cause in ["eof", "rderr", "alert"] {
+                let mut lines = vec![reset_line("sched", "client", SCHEMES[2].as_bytes(), 7, "")];
+                for t in ["nobuf;open;o200;o30", "open", "d1.5;open"] { lines.push(format!("sched task {t}")); }
+                lines.push("sched go".into());
+                for step in 0..14usize {
+                    if step == s_at { lines.push("sched stall".into()); }
+                    if step == c_at { lines.push(format!("sched {cause}")); }
+                    lines.push(format!("sched pick {}", step % 3));
+                }
+                lines.push("sched drain".into());
+                v.push(Case { lines });
+            }
+        }
         let depth = if tier == "thorough" { 7 } else { 4 };
         for (si, tasks, fault) in &scen {
             let mut total = 1usize;
@@ -146,6 +162,7 @@ impl Group for SchedGroup {
                 }
                 lines.push(format!("sched feed {}", hex(&b)));
             }
+            if fault_at == Some(s) && !shortw && rng.chance(1, 4) { lines.push("sched stall".into()); for _ in 0..rng.below(4) { lines.push(format!("sched pick {}", rng.below(6))); } }
             if fault_at == Some(s) {
                 // (the write budget counts write calls: it is not combined with short writes)
                 lines.push(match rng.below(if shortw { 3 } else { 5 }) { 0 => "sched eof".into(), 1 => "sched rderr".into(), 2 => "sched alert".into(), _ => format!("sched budget {}", rng.below(4)) });
@@ -165,6 +182,8 @@ impl Group for SchedGroup {
             let mut progs: Vec<Vec<String>> = vec![];
             let mut joins: Vec<tokio::task::JoinHandle<()>> = vec![];
             let mut cause: Option<String> = None;
+            // a transport whose writes neither complete nor fail (outside the model: from here on oracle-only)
+            let mut stalled = false;
             // inbound frames fed while a stream's SYN was already on the wire: what its reader / opener must get
             let mut fed_data: std::collections::BTreeMap<u32, Vec<u8>> = Default::default();
             let mut fed_verdict: std::collections::BTreeMap<u32, bool> = Default::default();
@@ -282,6 +301,11 @@ impl Group for SchedGroup {
                         settle().await;
                         out.obs.push(format!("{}{}", status(&ctl), n.delta().await));
                     }
+                    ["stall"] => {
+                        n.wire.lock().unwrap().stall = true;
+                        stalled = true;
+                        out.obs.push("ok".into());
+                    }
                     ["shortw", k] => {
                         // back-pressure: the transport accepts at most k bytes per write call (the model's transport
                         // takes whole buffers; `write_all` makes the two indistinguishable on the wire)
@@ -307,7 +331,7 @@ impl Group for SchedGroup {
                         let (a, b) = tokio::time::timeout(WATCHDOG, n.session.verif_table_keys()).await.unwrap_or((vec![9999], vec![9999]));
                         let (bf, bl) = match tokio::time::timeout(WATCHDOG, n.session.verif_buffer_state()).await {
                             Ok(x) => x,
-                            Err(_) => { out.oracle.push(OracleFail { sig: "lock_never_released/session_concurrent".into(), detail: "the session's buffer lock is still held after every task was released: some task is stuck inside write_frame".into() }); (false, 9999) }
+                            Err(_) => { if !stalled { out.oracle.push(OracleFail { sig: "lock_never_released/session_concurrent".into(), detail: "the session's buffer lock is still held after every task was released: some task is stuck inside write_frame".into() }); } (false, 9999) }
                         };
                         let fmt = |v: &Vec<u32>| v.iter().map(|x| x.to_string()).collect::<Vec<_>>().join(",");
                         let mut objs: Vec<(u32, String)> = vec![];
@@ -344,7 +368,7 @@ impl Group for SchedGroup {
                         ctl.lock().unwrap().verdicts = verdicts_tmp;
                         objs.sort();
                         out.obs.push(format!("{head} closed={} streams=[{}] recv=[{}] buf={},{} objs=[{}]", n.session.is_closed() as u8, fmt(&a), fmt(&b), bf as u8, bl, objs.iter().map(|x| x.1.clone()).collect::<Vec<_>>().join(",")));
-                        oracles(&mut out, &ctl, n, &progs, &cause).await;
+                        oracles(&mut out, &ctl, n, &progs, &cause, stalled).await;
                     }
                     _ => out.obs.push("bad-op".into()),
                 }
@@ -368,7 +392,7 @@ fn status(ctl: &Arc<Mutex<Ctl>>) -> String {
 }
 
 /// independent of the model: the clauses of C11 and C09 read off the recorded transport and the task results
-async fn oracles(out: &mut Outcome, ctl: &Arc<Mutex<Ctl>>, n: &mut Node, progs: &[Vec<String>], cause: &Option<String>) {
+async fn oracles(out: &mut Outcome, ctl: &Arc<Mutex<Ctl>>, n: &mut Node, progs: &[Vec<String>], cause: &Option<String>, stalled: bool) {
     let wire_bytes: Vec<u8> = n.wire.lock().unwrap().writes.concat();
     let shut = n.wire.lock().unwrap().shutdown;
     let closed = n.session.is_closed();
@@ -379,13 +403,14 @@ async fn oracles(out: &mut Outcome, ctl: &Arc<Mutex<Ctl>>, n: &mut Node, progs: 
     let terminated = closed || cause.is_some();
     // ---- C09: nothing blocks forever; closed, shut down; later attempts fail; streams released
     for (i, s) in c.st.iter().enumerate() {
-        if *s != St::Done {
+        // (with a stalled transport the writer inside it, and whoever queues behind its locks, cannot finish: not judged)
+        if *s != St::Done && !stalled {
             out.oracle.push(OracleFail { sig: "task_never_finishes/session_concurrent".into(), detail: format!("task {i} is {:?} after every parked task was released (session closed: {closed})", s) });
         }
     }
     if terminated {
         if !closed { out.oracle.push(OracleFail { sig: "not_closed_after_cause/session_concurrent".into(), detail: format!("cause {:?}: is_closed is false", cause) }); }
-        if closed && !shut { out.oracle.push(OracleFail { sig: "transport_not_shut_down/session_concurrent".into(), detail: format!("session closed (cause {:?}, close op: {any_close_op}, write failure: {budget_hit}) but the transport was never shut down", cause) }); }
+        if closed && !shut && !stalled { out.oracle.push(OracleFail { sig: "transport_not_shut_down/session_concurrent".into(), detail: format!("session closed (cause {:?}, close op: {any_close_op}, write failure: {budget_hit}) but the transport was never shut down", cause) }); }
         for (tid, oi, op, was_closed, r) in &c.oplog {
             if *was_closed && r == "ok" && op != "nobuf" && op != "close" {
                 out.oracle.push(OracleFail { sig: "attempt_after_close_succeeds/session_concurrent".into(), detail: format!("task {tid} op {oi} `{op}` started after the session was closed and returned ok") });
@@ -404,6 +429,7 @@ async fn oracles(out: &mut Outcome, ctl: &Arc<Mutex<Ctl>>, n: &mut Node, progs: 
             }
         }
     }
+    if stalled { return; }
     // ---- C11: once a write_frame has decided with buffering off, the buffer was flushed and nothing is ever buffered again
     if c.unbuffered_decide && !closed && no_failure_early(n) {
         let bl = tokio::time::timeout(WATCHDOG, n.session.verif_buffer_state()).await.map(|x| x.1).unwrap_or(0);
